@@ -191,7 +191,8 @@ Theorem C18_stage_delete_is_fold :
     stage O KDeleteSignal (render_list l) m = Some (fold_tot (o_del_signal O) l m) /\
     stage O KDeleteFrame (render_list l) m = Some (fold_tot (o_del_frame O) l m) /\
     stage O KDeleteEcu (render_list l) m = Some (fold_tot (o_del_ecu O) l m) /\
-    stage O KDeleteSignalAttributes (render_list l) m = Some (o_del_signal_attributes O l m).
+    stage O KDeleteSignalAttributes (render_list l) m = Some (o_del_signal_attributes O l m) /\
+    stage O KDeleteFrameAttributes (render_list l) m = Some (o_del_frame_attributes O l m).
 Proof. exact stage_delete_is_fold. Qed.
 Print Assumptions C18_stage_delete_is_fold.
 
